@@ -257,6 +257,10 @@ func collectionCentroidArea(c orb.Collection) (orb.Point, float64) {
 
 	max := maxDim(c)
 	for _, g := range c {
+		if g == nil {
+			continue
+		}
+
 		if g.Dimensions() != max {
 			continue
 		}
@@ -282,6 +286,10 @@ func collectionCentroidArea(c orb.Collection) (orb.Point, float64) {
 func maxDim(c orb.Collection) int {
 	max := 0
 	for _, g := range c {
+		if g == nil {
+			continue
+		}
+
 		if d := g.Dimensions(); d > max {
 			max = d
 		}
